@@ -38,7 +38,41 @@ def blocks_of(kind, atoms, mtxs):
         return [[("trylock", m), ("tunlock", m)] for m in mtxs]
     if kind == "yield":
         return [[("yield", "none")]]
+    if kind == "send":
+        return [[("send", "ch")]]
+    if kind == "recv":
+        return [[("recv", "ch")]]
+    if kind == "tryrecv":
+        return [[("tryrecv", "ch")]]
+    if kind == "acount":
+        return [[("acount", "A")]]
+    if kind == "aclonedrop":
+        return [[("aclone", "A"), ("adrop", "A")]]
+    if kind == "acloneinspectdrop":
+        return [[("aclone", "A"), ("acount", "A"), ("adrop", "A")]]
+    if kind == "park":
+        return [[("park", "none")]]
     raise ValueError(kind)
+
+
+def space2(n, kinds, main_kinds, atoms, mtxs, k, main_k, chan=False, arc=False, unpark_to=()):
+    """like space(), with different block kinds for main; chan: main is the receiver and drops it at the end;
+    arc: every thread owns a handle of one Arc (main clones it for the others first) and drops it at the end;
+    unpark_to: spawned threads may unpark these threads"""
+    Bs = [b for kd in kinds for b in blocks_of(kd, atoms, mtxs)] + [[("unpark", u)] for u in unpark_to]
+    Bm = [b for kd in main_kinds for b in blocks_of(kd, atoms, mtxs)]
+    codes = [sum(c, []) for c in itertools.product(Bs, repeat=k)]
+    mains = [sum(c, []) for c in itertools.product(Bm, repeat=main_k)]
+    out = []
+    for m in mains:
+        for ix in itertools.combinations_with_replacement(range(len(codes)), n - 1):
+            pre = [("aclone", "A")] * (n - 1) if arc else []
+            main = pre + [("spawnall", "none")] + list(m) + ([("droprx", "ch")] if chan else []) + ([("adrop", "A")] if arc else [])
+            ths = [list(codes[i]) + ([("adrop", "A")] if arc else []) + [("ntf", f"j{t + 2}")] for t, i in enumerate(ix)]
+            if unpark_to and any(op == "unpark" and o == t + 2 for t, th in enumerate(ths) for (op, o) in th):
+                continue          # a thread does not unpark itself
+            out.append([main] + ths)
+    return out
 
 
 def space(n, kinds, atoms, mtxs, k, main_k):
@@ -55,7 +89,7 @@ def space(n, kinds, atoms, mtxs, k, main_k):
 
 def to_tla(progs):
     def ins(i):
-        return f'[op |-> "{i[0]}", o |-> "{i[1]}"]'
+        return f'[op |-> "{i[0]}", o |-> {i[1]}]' if isinstance(i[1], int) else f'[op |-> "{i[0]}", o |-> "{i[1]}"]'
     return "{" + ",\n  ".join("<<" + ", ".join("<<" + ", ".join(ins(i) for i in th) + ">>" for th in p) + ">>" for p in progs) + "}"
 
 
@@ -64,9 +98,14 @@ def to_dsl(p, name):
     dropped, each spawned thread still notifies its handle's Notify when it ends)"""
     threads = []
     for t, code in enumerate(p, start=1):
-        th = [spawn(u) for u in range(2, len(p) + 1)] if t == 1 else []
+        explicit = any(op == "spawnall" for (op, o) in p[0])
+        th = [spawn(u) for u in range(2, len(p) + 1)] if t == 1 and not explicit else []
         nreg = 0
+        pending_clone = False
+        spawned_yet = False
         for i, (op, o) in enumerate(code, start=1):
+            if op == "spawnall":
+                spawned_yet = True
             if op == "ld":
                 th.append(ld(o, "sc")); nreg += 1
             elif op == "st":
@@ -81,19 +120,48 @@ def to_dsl(p, name):
                 th += [br(nreg, 1, 1), I("unlock", o)]
             elif op == "yield":
                 th.append(I("yield"))
+            elif op == "spawnall":
+                th += [spawn(u) for u in range(2, len(p) + 1)]
+            elif op == "send":
+                th.append(I("send", o, v=10 * t + i))
+            elif op == "recv":
+                th.append(I("recv", o)); nreg += 1
+            elif op == "tryrecv":
+                th.append(I("tryrecv", o)); nreg += 1
+            elif op == "droprx":
+                th.append(I("droprx", o))
+            elif op == "acount":
+                th.append(I("acount", f"a{t}")); nreg += 1
+            elif op == "aclone":
+                if not spawned_yet and t == 1:
+                    pass                                   # main's initial clones are made by the interpreter (Sh::new)
+                else:
+                    th.append(I("aclone", f"a{t}", o2=f"a{t}b")); pending_clone = True
+            elif op == "adrop":
+                if pending_clone:
+                    th.append(I("adrop", f"a{t}b")); pending_clone = False
+                else:
+                    th.append(I("adrop", f"a{t}"))
+            elif op == "park":
+                th.append(I("park"))
+            elif op == "unpark":
+                th.append(dsl.unpark(o))
             elif op == "ntf":
                 pass
             else:
                 raise ValueError(op)
         threads.append(th)
-    return dsl.normalize({"threads": threads, "name": name, "tags": ["dpor"]})
+    d = {"threads": threads, "name": name, "tags": ["dpor"]}
+    if any(op in ("acount", "aclone", "adrop") for th in p for (op, o) in th):
+        d["arcs"] = {"A": {"h0": [f"a{t}" for t in range(1, len(p) + 1)], "cell": ""}}
+    return dsl.normalize(d)
 
 
-def key_of(regs):
-    return tlc.canon_key(regs, [])
+def key_of(regs, drops=()):
+    return tlc.canon_key(regs, list(drops))
 
 
-def run_spec(ctx, progs, bounds, n, label, rule="perthread", timeout=3000):
+def run_spec(ctx, progs, bounds, n, label, rule="perthread", timeout=3000, invariants=True):
     work = os.path.join(ctx.work, label)
     os.makedirs(work, exist_ok=True)
     with open(os.path.join(work, "MCDporRun.tla"), "w") as f:
@@ -102,7 +170,7 @@ def run_spec(ctx, progs, bounds, n, label, rule="perthread", timeout=3000):
     cfg = os.path.join(work, "MCDporRun.cfg")
     with open(cfg, "w") as f:
         f.write(f'SPECIFICATION Spec\nCONSTANTS\n  N = {n}\n  Progs <- RunProgs\n  BoundList <- RunBounds\n  Rule = "{rule}"\n  Emit = TRUE\n'
-                "INVARIANTS NoPanic NoRepeat Complete Sound Monotone Saturates Report\nCHECK_DEADLOCK FALSE\n")
+                "INVARIANTS NoPanic NoRepeat " + ("Complete Sound Monotone Saturates " if invariants else "") + "Report\nCHECK_DEADLOCK FALSE\n")
     r = tlc.run_tlc(work, "MCDporRun", cfg, workers=ctx.tlc_workers, timeout=timeout)
     ctx.add_tlc(r, label)
     if "Model checking completed. No error has been found." not in r["text"]:
@@ -132,11 +200,15 @@ def sched_seqs(res):
 def run(ctx, spaces, bounds, sample, rng, want=("C01", "C15")):
     """spaces: list of (label, n, kinds, atoms, mtxs, k, main_k)"""
     total = drift = nontriv = 0
-    for (label, n, kinds, atoms, mtxs, k, main_k) in spaces:
-        progs = space(n, kinds, atoms, mtxs, k, main_k)
+    for sp in spaces:
+        if isinstance(sp, dict):
+            label, n, progs, inv = sp["label"], sp["n"], sp["progs"], sp.get("invariants", True)
+        else:
+            (label, n, kinds, atoms, mtxs, k, main_k) = sp
+            progs, inv = space(n, kinds, atoms, mtxs, k, main_k), True
         if sample and len(progs) > sample:
             progs = rng.sample(progs, sample)
-        spec = run_spec(ctx, progs, bounds, n, label)
+        spec = run_spec(ctx, progs, bounds, n, label, invariants=inv)
         items, meta = [], []
         dprogs = []
         for pi, p in enumerate(progs):
@@ -156,13 +228,14 @@ def run(ctx, spaces, bounds, sample, rng, want=("C01", "C15")):
         for pi, p in enumerate(progs):
             d = dprogs[pi]
             sp = spec[json.dumps([[list(i) for i in th] for th in p])]
-            ref = {key_of(o["regs"]) if o["end"] == "ok" else "deadlock" for o in sp["ref"]}
+            drops = [1] if any(op in ("acount", "aclone", "adrop") for th in p for (op, o) in th) else []   # the payload is dropped once
+            ref = {key_of(o["regs"], drops) if o["end"] == "ok" else "deadlock" for o in sp["ref"]}
             nops = sum(len(th) for th in p)
             real = {}
             for b in bounds:
                 r = by[(pi, b)]
                 if r["end"] == "deadlock":
-                    real[b] = {"deadlock"}
+                    real[b] = loomrun.loom_keys(r) | {"deadlock"}       # the iterations completed before the report count too
                 elif r["end"] != "ok":
                     ctx.violation("dpor-run-failed", d, {"bound": b, "end": r["end"]}, {"msg": r.get("msg", "")[:200]})
                     real[b] = None
@@ -202,10 +275,10 @@ def run(ctx, spaces, bounds, sample, rng, want=("C01", "C15")):
                 if real[b] is None:
                     continue
                 pr = sp["runs"][bi]
-                pres = {key_of(o["regs"]) if o["end"] == "ok" else "deadlock" for o in pr["res"]}
-                psch = {tuple(s) for s in pr["scheds"]}
-                rsch = sched_seqs(r)
-                if not (pres <= real[b]) or (r["end"] == "ok" and len(r.get("hook_events", [])) < 2900 and psch != rsch):
+                pres = {key_of(o["regs"], drops) if o["end"] == "ok" else "deadlock" for o in pr["res"]}
+                psch = {tuple(s) for s in pr["scheds"]} - ({tuple(pr["deadsched"])} if pr["deadsched"] else set())
+                rsch = sched_seqs(r)              # the deadlocked iteration has no end event
+                if not (pres <= real[b]) or (r["end"] in ("ok", "deadlock") and len(r.get("hook_events", [])) < 2900 and psch != rsch):
                     drift += 1
                     if drift <= 5:
                         ctx.notes.append(f"dpor-spec-drift {dsl.pretty(d)} bound={b}: results spec={len(pres)} loom={len(real[b])}; "
